@@ -427,6 +427,7 @@ type rcfg struct {
 	// PreFile: the earlier life reads this other stream to its end (io.Copy) before Reset(source)
 	PreFile string `json:"preFile,omitempty"`
 	PrePart int    `json:"prePart,omitempty"`
+	PreRead bool   `json:"preRead,omitempty"` // the earlier life reads its stream to the end with Read calls (not WriteTo)
 	// Seek: the source also implements io.Seeker (as a bytes.Reader or a file does; seeking past the end is not an error)
 	Seek bool `json:"seek,omitempty"`
 	// PreConc: the concurrency of the earlier life (the judged life re-applies Conc after Reset)
@@ -560,6 +561,13 @@ func runReaderDelay(data []byte, cfg rcfg, watchdog time.Duration, outLimit int,
 					n, err := zr.Read(pbuf[:want])
 					got += n
 					if err != nil || n == 0 {
+						break
+					}
+				}
+			} else if cfg.PreRead {
+				pbuf := make([]byte, 4096)
+				for {
+					if _, err := zr.Read(pbuf); err != nil {
 						break
 					}
 				}
